@@ -70,6 +70,7 @@ type c05Setup struct {
 	recv    hccrypto.Cryptographer
 	first   uint64 // the counter under which frame 0 of the stream was sealed
 	dir     string
+	zero    bool // the session's shared secret is itself the all-zero one (then its keys are not "somebody else's")
 }
 
 func c05Build(cas c05Case) (*c05Setup, error) {
@@ -111,7 +112,7 @@ func c05Build(cas c05Case) (*c05Setup, error) {
 		refctl.Frames(rkey, &rctr, m)
 		refctl.Frames(okey, &octr, m)
 	}
-	s.first, s.dir = ctr, cas.Dir
+	s.first, s.dir, s.zero = ctr, cas.Dir, secret == [32]byte{}
 	for i, n := range cas.Lens {
 		msg := pat(n, byte(29*i+5))
 		base := len(s.stream)
@@ -239,7 +240,7 @@ func (s *c05Setup) apply(in []byte, f c05Fault, pristine bool) []byte {
 		}
 		out = append(out, fr...)
 		key := make([]byte, 32)
-		if f.B >= 2 {
+		if f.B >= 2 && !s.zero {
 			a2c, c2a := refctl.SessionKeys(make([]byte, 32))
 			key = c2a
 			if s.dir != "acc" {
